@@ -126,7 +126,7 @@ class C01(Prop):
                 cfmt[str(j)] = g.choice(FMTS)
         sc = {"cols": [[None if x is None else float(x).hex() for x in c] for c in cols], "kw": kw, "column_fmt": cfmt,
               "lnf": lnf, "data_width": width, "null": null, "engine": g.choice(["numpy", "normal"]),
-              "out": g.choice(["path", "stream", "stringio"]), "channel": draw_read_channel(g, ascii_only=True),
+              "out": g.choice(["path", "stream", "stringio"]), "channel": draw_read_channel(g, ascii_only=True, used_object_p=0.06),
               "policy": Policy.draw(st.io).to_json(), "names": g.choice(["plain", "plain", "long", "mixed"]),
               "case": g.choice(["preserve", "preserve", "upper", "lower"]), "nkw": neutral_read_kw(g),
               "nwkw": neutral_write_kw(g, present=tuple(kw) + ("column_fmt", "len_numeric_field", "data_width"))}
